@@ -90,7 +90,7 @@ impl SchemaSpec {
             SchemaSpec::ReLU { .. } => schema::partial_ReLU(dim, r),
             SchemaSpec::Leaky { alpha, .. } => schema::partial_leaky_ReLU(dim, r, *alpha),
             SchemaSpec::HardTanh { min, width, .. } => schema::partial_hard_tanh(dim, r, *min, *min + width.abs()),
-            SchemaSpec::HardShrink { lambda, .. } => schema::partial_hard_shrink(dim, r, lambda.abs()),
+            SchemaSpec::HardShrink { lambda, .. } => schema::partial_hard_shrink(dim, r, *lambda),
             SchemaSpec::HardSigmoid { .. } => schema::partial_hard_sigmoid(dim, r),
             SchemaSpec::Threshold { t, v, .. } => schema::partial_threshold(dim, r, *t, *v),
             SchemaSpec::Argmax => schema::argmax(dim),
@@ -104,7 +104,13 @@ impl SchemaSpec {
         match self {
             SchemaSpec::ReLU { .. } | SchemaSpec::Leaky { .. } => vec![0.0],
             SchemaSpec::HardTanh { min, width, .. } => vec![*min, *min + width.abs()],
-            SchemaSpec::HardShrink { lambda, .. } => vec![lambda.abs(), -lambda.abs()],
+            SchemaSpec::HardShrink { lambda, .. } => {
+                if *lambda >= 0.0 {
+                    vec![*lambda, -*lambda]
+                } else {
+                    vec![]
+                }
+            }
             SchemaSpec::HardSigmoid { .. } => vec![-3.0, 3.0],
             SchemaSpec::Threshold { t, .. } => vec![*t],
             SchemaSpec::InfNorm { min, max } => min.iter().chain(max.iter()).copied().collect(),
@@ -141,7 +147,11 @@ impl SchemaSpec {
             }
             // x if |x| > lambda else 0
             SchemaSpec::HardShrink { lambda, .. } => {
-                let l = q(lambda.abs());
+                // a negative lambda is not excluded anywhere: |x| > lambda then always holds (identity)
+                if *lambda < 0.0 {
+                    return Ref::leaf(id);
+                }
+                let l = q(*lambda);
                 Ref::Split(vec![
                     (vec![Row::lt(neg_e.clone(), -&l)], Ref::leaf(id.clone())),
                     (vec![Row::lt(e.clone(), -&l)], Ref::leaf(id)),
@@ -261,7 +271,7 @@ pub fn activation_spec_x(exotic: bool) -> impl Strategy<Value = SchemaSpec> {
         3 => any::<u16>().prop_map(|row| SchemaSpec::ReLU { row }),
         2 => (any::<u16>(), prop_oneof![Just(0.0), Just(0.5), Just(-1.0), Just(2.0), Just(0.125), nice_param(exotic)]).prop_map(|(row, alpha)| SchemaSpec::Leaky { row, alpha }),
         2 => (any::<u16>(), nice_param(exotic), prop_oneof![1 => Just(0.0), 5 => nonneg_param(exotic)]).prop_map(|(row, min, width)| SchemaSpec::HardTanh { row, min, width }),
-        2 => (any::<u16>(), nonneg_param(exotic)).prop_map(|(row, lambda)| SchemaSpec::HardShrink { row, lambda }),
+        2 => (any::<u16>(), nonneg_param(exotic), any::<u8>()).prop_map(move |(row, lambda, s)| SchemaSpec::HardShrink { row, lambda: if exotic && s % 8 == 0 { -lambda } else { lambda } }),
         1 => any::<u16>().prop_map(|row| SchemaSpec::HardSigmoid { row }),
         2 => (any::<u16>(), nice_param(exotic), nice_param(exotic)).prop_map(|(row, t, v)| SchemaSpec::Threshold { row, t, v }),
     ]
